@@ -153,6 +153,57 @@ impl ReadHalf for ScriptRead {
     }
 }
 
+/// Read half that delivers one burst of `n` bytes (`n` concrete, content symbolic) in its first
+/// read and reports end of stream afterwards. Unlike `ScriptRead` its control fields are plain
+/// scalars of the struct itself and the number of bytes delivered is computed without a loop, so
+/// that the connection's cursors stay concrete after the read (R1).
+#[derive(Debug)]
+pub struct BurstRead {
+    pub bytes: *const [u8; CHUNK],
+    pub n: usize,
+    pub reads: usize,
+    pub calls: usize,
+}
+
+pub struct BurstFut<'a, 'b> {
+    s: &'a mut BurstRead,
+    buf: &'b mut [u8],
+}
+
+impl Future for BurstFut<'_, '_> {
+    type Output = zlink_core::Result<usize>;
+    fn poll(self: Pin<&mut Self>, _cx: &mut Context<'_>) -> Poll<Self::Output> {
+        let this = self.get_mut();
+        unsafe {
+            READ_POLLS += 1;
+            if READ_POLLS > READ_POLL_LIMIT {
+                crate::nd::cut_path();
+            }
+        }
+        this.s.reads += 1;
+        if this.s.reads > 1 {
+            return Poll::Ready(Ok(0));
+        }
+        let space = this.buf.len();
+        let put = if this.s.n < space { this.s.n } else { space };
+        let mut i = 0;
+        while i < CHUNK {
+            if i < put {
+                this.buf[i] = unsafe { (*this.s.bytes)[i] };
+            }
+            i += 1;
+        }
+        Poll::Ready(Ok(put))
+    }
+}
+
+impl ReadHalf for BurstRead {
+    fn read<'s, 'b>(&'s mut self, buf: &'b mut [u8]) -> impl Future<Output = zlink_core::Result<usize>> + use<'s, 'b> {
+        self.calls += 1;
+        BurstFut { s: self, buf }
+    }
+}
+
 pub const CAP: usize = 72;
 pub const MAXW: usize = 3;
 
